@@ -79,4 +79,28 @@ TEXT = {
   "note": "Go slice aliasing is not modelled (caught by correspondence/monitor, not by a theorem); trusted: Coq kernel, extraction, harness",
   "technique": "Coq proof (case analysis of step, invariant chain_linked over reach) + differential correspondence and hash re-observation monitor",
  },
+ "C02": {
+  "level": "Theorems over the registry model: a transaction naming one output twice can never be applied; a successfully applied block consumes pairwise distinct references, each spendable before the block or created earlier in it, and none is spendable afterwards; along a replayed chain with distinct transaction ids no reference is consumed twice and every consumed reference stays unspendable; from the empty state every input names an output created earlier in the chain. Admission refuses a transaction conflicting with the last block or the pool (proved under distinct ids; the hypothesis-free form is refuted by an id-reuse witness that content-hashed ids exclude).",
+  "ref": "DESIGN.md section 4, C02",
+  "note": "hypothesis: pairwise distinct transaction ids (content hashes, C15); same-block spends are accepted by the producer: known finding; trusted: Coq kernel, extraction, harness",
+  "technique": "Coq proof (well-formedness invariant of the output registry, induction over blocks and chains) + differential correspondence with conflicting-spend histories and a consumed-reference monitor",
+ },
+ "C08": {
+  "level": "Paging theorems for all chains, heights and realistic page sizes (chain length + page <= 2^64, the uint64 wrap written out): a page is exactly the contiguous slice [h, min(h+limit, n)), never longer than the page size, empty iff h >= n or n = 0 or limit = 0, and concatenating pages rebuilds the chain; the wrap case panics (a setting, not an input). Convergence within 1 + ceil(|C|/(page-1)) rounds is measured on real nodes against the bound and each sync round is compared with the model (whose C06/C07 theorems give that an adopted chain is a verified candidate and the state its replay); the round-counting theorem itself is not proved: partial.",
+  "ref": "DESIGN.md section 4, C08",
+  "note": "partial: the convergence bound is validated on histories, not proved; trusted: Coq kernel, extraction, harness",
+  "technique": "Coq proof (list/N arithmetic of the paging function) + differential correspondence and round counting on real nodes",
+ },
+ "C10": {
+  "level": "Theorems: after every successfully applied block, along every replayed chain and in every reachable node no address owns two unspent yielding outputs; a block passes verification only if every yielding output of its ordinary transactions goes to an address registered in the state consulted or listed as newly registered by that block; a produced block lists every yielding recipient that is not already registered; addresses listed as removed (and not re-added by the same block) are not registered once the block is applied.",
+  "ref": "DESIGN.md section 4, C10",
+  "note": "the registry consulted by the verifier inside a batch is one block behind (C05 findings); proof-of-humanity is an oracle; trusted: Coq kernel, extraction, harness",
+  "technique": "Coq proof (post-condition of UpdateUtxos' income test, invariant over reach, inversion of verifyBlock and of production) + differential correspondence with yielding-output patterns and registry refreshes",
+ },
+ "C13": {
+  "level": "Theorems: (state) for every host state and every list of neighbor answers a sync round either returns the state unchanged or adopts a verified candidate, and all-failing neighbors are ignored; (fetch protocol) in the transition system of verifyNeighborBlockchain with a one-slot channel the fetcher never blocks on its send, every run has at most 5 steps and ends with the caller returned and the fetcher done for every answering behaviour, the caller returns at the latest at the timeout, and after a round of n neighbors no fetcher is live; the pinned tree's unbuffered double send is refuted by explicit runs; (time, abstract units) a round takes at most 2*n*timeout plus verification work. Wall-clock time and the goroutine count are measured on the implementation.",
+  "ref": "DESIGN.md section 4, C13",
+  "note": "partial on runtime aspects: scheduling and wall-clock are measured (monitor), not proved; a neighbor call that itself never returns keeps its goroutine until the transport times out",
+  "technique": "Coq proof (finite LTS of the fetch protocol by exhaustive case analysis lifted to rounds by induction; inversion of update) + differential correspondence under a fault matrix + goroutine/time monitors",
+ },
 }
